@@ -228,7 +228,10 @@ class ECDSAKey(PKey):
         return m
 
     def verify_ssh_sig(self, data, msg):
-        if msg.get_text() != self.ecdsa_curve.key_format_identifier:
+        try:
+            if msg.get_text() != self.ecdsa_curve.key_format_identifier:
+                return False
+        except UnicodeDecodeError:
             return False
         sig = msg.get_binary()
         sigR, sigS = self._sigdecode(sig)
